@@ -195,6 +195,9 @@ def read_all(f, spec):
             b = show_slice(e["kind"], f[path])
             c = show_slice(e["kind"], getattr(f, ATTR_ACCESS[path])) if path in ATTR_ACCESS else a
             got[path] = a if a == b == c else f"access-paths-differ {a[:80]} | {b[:80]} | {c[:80]}"
+            if e["kind"] == "ts":
+                r = f[g][n].sample_rate
+                got[path] += " rate=" + ("None" if r is None else repr(float(r)))
         except Exception as ex:
             got[path] = errname(ex)
     return got
@@ -431,6 +434,9 @@ def _file_oracle(case, ia):
     # read faithfulness
     for path, e in exp.items():
         want = show(e["kind"], e["ts"], e["data"])
+        if e["kind"] == "ts":
+            steps = sorted({b - a for a, b in zip(e["ts"], e["ts"][1:])})
+            want += " rate=" + (repr(1e9 / steps[0]) if len(steps) == 1 else "None")
         got = obs.get("read", {}).get(path)
         if got != want:
             return f"read: channel {path} read as {str(got)[:200]} but the file stores {want[:200]}"
